@@ -366,13 +366,12 @@ static void visit_orders(const hist_t *h, void *arg_)
 static void leg_orders(int slice, int nslices, void *arg_)
 {
     leg_arg_t *la = (leg_arg_t *)arg_;
-    parsec_context_t *parsec = init_ctx(1, NULL); use_hsched = 1;
+    parsec_context_t *parsec = g_ctx ? g_ctx : init_ctx(1, NULL); use_hsched = 1;   /* g_ctx: initialised once by the parent (1 stream, no threads) and inherited */
     hs_install(parsec); hs_module.module.select = c06_select;
     vis_t v = { slice, nslices, (hs_explorer_t *)malloc(sizeof(hs_explorer_t)), la, 0 };
     gen_t *g = (gen_t *)malloc(sizeof(gen_t));
     gen_all(g, la->N, la->kinds, visit_orders, &v);
     hs_uninstall(parsec);
-    parsec_fini(&parsec);
 }
 
 static void visit_free(const hist_t *h, void *arg_)
@@ -455,10 +454,11 @@ int main(int argc, char **argv)
         return wr_finish();
     }
     /* free-running configuration box first (short), then the deciding legs up to the deadline */
-    if (!only || !strcmp(only, "threads")) { leg_arg_t la = { Nfree, 0, kinds, 0, NULL, reps }; wr_run_legs("threads", 9, leg_threads, &la, 40, aux); }
+    if (!only || !strcmp(only, "threads")) { leg_arg_t la = { Nfree, 0, kinds, 0, NULL, reps }; wr_run_legs("threads", 9, leg_threads, &la, 90, aux); }
     /* leg "orders": plan = list of len:kinds:lo ; lo (histories of length <= lo were covered by an earlier, complete entry) */
     if (!only || !strcmp(only, "orders")) {
         char pl[256]; snprintf(pl, sizeof(pl), "%s", plan); int all_exh = 1;
+        init_ctx(1, NULL);       /* once, in the parent: the forked workers inherit the initialised one-stream context */
         for (char *t = strtok(pl, ","); t; t = strtok(NULL, ",")) {
             int n = 0, lo = 0; static char kd[8][8]; static int ki = 0; char *k = kd[ki++ % 8];
             if (sscanf(t, "%d:%7[a-d]:%d", &n, k, &lo) < 2) { fprintf(stderr, "bad plan entry %s\n", t); return 2; }
@@ -467,7 +467,7 @@ int main(int argc, char **argv)
             char name[48]; snprintf(name, sizeof(name), "orders-len%d-%s", n, k);
             leg_arg_t la = { n, lo, k, 1, NULL, 1 };
             int v0 = wr_total_violations;
-            wr_run_legs(name, jobs, leg_orders, &la, 30, aux);
+            wr_run_legs(name, n <= 4 ? 2 : jobs, leg_orders, &la, 60, aux);
             if (wr_total_violations != v0 || wr_expired()) all_exh = 0;
         }
     }
